@@ -1,3 +1,4 @@
+import Hm.C15Fields
 import Hm.C04Whole
 import Hm.C13EndToEnd
 import Hm.C15Gzip
@@ -112,3 +113,5 @@ import Hm.Statements
 #print axioms C13_gzip_stored_blocks
 #print axioms C13_level0_stacks
 #print axioms C04_accept_sound
+#print axioms C15_zlib_field_altered
+#print axioms C15_gzip_field_altered
